@@ -410,6 +410,7 @@ def main(argv=None):
     new_violations = 0
     known_hits = collections.Counter()
     replays = []
+    reported = set()
     shrink_total = time.time() + 4 * mod.BUDGET[tier].get('shrink_s', 15)
     for sig, lst in by_sig.items():
         case, v = lst[0]
@@ -433,6 +434,9 @@ def main(argv=None):
         if (prop, mv['sig']) in known and mv['sig'] != sig:
             # minimisation drifted into a known finding; report the original
             mcase, mv = case, v
+        if mv['sig'] in reported:
+            continue
+        reported.add(mv['sig'])
         path = write_replay(prop, mcase, mv, verif_seed,
                             {'original_case': case} if mcase is not case else None)
         replays.append(path)
